@@ -134,7 +134,9 @@ func runTiming(sc scenario, bk *builtKernel, d kernelData, l layout) *runOutcome
 	return out
 }
 
-func eventLimit(sc scenario) int64 { return 60_000_000 }
+// eventLimit is the livelock bound: more than ten times the largest run of the
+// thorough tier (864 090 events at seed 1).
+func eventLimit(sc scenario) int64 { return 10_000_000 }
 
 // ---------------------------------------------------------------------------
 // emulation reference: the same code object, the same fake dispatcher, the
